@@ -25,7 +25,7 @@ def gen(chk, mpmath, rng):
         mp.prec = p
         c = rng.random()
         try:
-            if c < 0.35:
+            if c < 0.3:
                 N = rng.randint(0, 12)
                 kind = rng.choice(["2f1", "1f1", "3f2", "2f0", "hyper"])
                 b, cc, d, e = rq(rng), rq(rng), rq(rng), rq(rng)
@@ -54,9 +54,9 @@ def gen(chk, mpmath, rng):
                     e_ = ex.hypterm([-N, b], [cc], z, N)
                 if not oblcommon.fin(got) or hasattr(got, "_mpc_"):
                     yield None; continue
-                yield ex.relabs_close(got, e_, 8, p), {"key": "terminating/" + kind, "f": kind, "N": N, "params": [str(b), str(cc), str(d), str(e)], "z": str(z), "p": p,
+                yield ex.rel0_close(got, e_, 8, p), {"key": "terminating/" + kind, "f": kind, "N": N, "params": [str(b), str(cc), str(d), str(e)], "z": str(z), "p": p,
                                                        "what": "terminating hypergeometric series differs from the exact rational sum"}
-            elif c < 0.7:
+            elif c < 0.55:
                 fam = rng.choice(["legendre", "chebyt", "chebyu", "hermite", "laguerre", "gegenbauer"])
                 N = rng.randint(0, 14)
                 x = rq(rng, (1, 2, 4, 8, 16))
@@ -71,8 +71,25 @@ def gen(chk, mpmath, rng):
                     got = getattr(mp, fam)(N, xm)
                 if not oblcommon.fin(got) or hasattr(got, "_mpc_"):
                     yield None; continue
-                yield ex.relabs_close(got, ex.ortho(fam, N, x, a), 8, p), {"key": "orthopoly/" + fam, "f": fam, "N": N, "x": str(x), "a": str(a), "p": p,
+                yield ex.rel0_close(got, ex.ortho(fam, N, x, a), 8, p), {"key": "orthopoly/" + fam, "f": fam, "N": N, "x": str(x), "a": str(a), "p": p,
                                                                             "what": "orthogonal polynomial differs from its three-term recurrence value"}
+            elif c < 0.85:
+                # [R] cancellation-heavy alternating series: 1F1(a; b; z) with small integers a >= b and z in [-60, -10]
+                # (the sum is e^z times a polynomial: thirty or more bits cancel), and 0F1 / 1F2 at large negative z
+                a_ = rng.randint(1, 6); b_ = rng.randint(1, a_); z = Fr(rng.randint(-100, -40), 2)
+                fam = rng.choice(["hyp1f1", "hyp1f1", "hyp1f1", "hyper", "hyper", "hyp0f1", "hyp2f2"])
+                def call(q):
+                    mp.prec = q
+                    Z = mp.mpf(z.numerator) / z.denominator
+                    if fam == "hyp1f1": return mp.hyp1f1(a_, b_, Z)
+                    if fam == "hyper": return mp.hyper([a_], [b_], Z)
+                    if fam == "hyp0f1": return mp.hyp0f1(b_, Z * 8)
+                    return mp.hyp2f2(a_, a_ + 1, b_, b_ + 2, Z)
+                y1 = call(p); y2 = call(2 * p + 60)
+                if not (oblcommon.fin(y1) and oblcommon.fin(y2)) or hasattr(y1, "_mpc_") or hasattr(y2, "_mpc_"):
+                    yield None; continue
+                yield ex.rel0_close(y1, y2, 8, p), {"key": "samereal/cancellation-" + fam, "f": fam, "a": a_, "b": b_, "z": str(z), "p": p,
+                                                       "what": "values at precisions p and 2p+60 of a heavily cancelling series are not approximations of one real number"}
             else:
                 # [R]: one real number behind the values at two precisions; contiguous relation for 1F1
                 a, b = rq(rng), Fr(rng.randint(1, 12), rng.choice([1, 2, 3]))
@@ -90,7 +107,7 @@ def gen(chk, mpmath, rng):
                 y1 = call(p); y2 = call(2 * p + 30)
                 if not (oblcommon.fin(y1) and oblcommon.fin(y2)) or hasattr(y1, "_mpc_") or hasattr(y2, "_mpc_"):
                     yield None; continue
-                yield ex.relabs_close(y1, y2, 8, p), {"key": "samereal/" + f, "f": f, "a": str(a), "b": str(b), "z": str(z), "p": p,
+                yield ex.rel0_close(y1, y2, 8, p), {"key": "samereal/" + f, "f": f, "a": str(a), "b": str(b), "z": str(z), "p": p,
                                                        "what": "values at precisions p and 2p+30 are not approximations of one real number"}
         except (ZeroDivisionError, ValueError, TypeError, mpmath.libmp.NoConvergence, NotImplementedError):
             yield None
